@@ -1,4 +1,5 @@
 import KrroodVerif.Model.ClassDiagram
+import KrroodVerif.Props.C17Override
 /-!
 # C17 — class diagrams mirror the Python classes and derived views leave them intact
 
@@ -1006,4 +1007,16 @@ theorem C17_consistent (q : Quirks) (t : Ann) :
   · intro h
     simp [isIterable, isTypeType] at h ⊢
     exact h
+/-- **C17_edges_any_fields.** The well-formedness of an input is about the class list only: field names need no
+hypothesis. With re-declared (overridden) fields included, no class has two fields of one name
+(`C17_public_names_nodup`, Props/C17Override.lean), so `C17_edges` holds for every world — whatever the classes declare
+and re-declare — and every list of distinct classes whose `__bases__` do not repeat. -/
+theorem C17_edges_any_fields (w : World) (order : List Nat) (h1 : order.Nodup)
+    (h2 : ∀ c ∈ order, (w.basesOf c).Nodup) :
+    WFInput w order ∧ build .none w order = specBuild w order ∧ (build .none w order).edges.Nodup := by
+  have wf : WFInput w order := ⟨h1, h2, fun c _ => C17_public_names_nodup w c⟩
+  exact ⟨wf, (C17_edges w order wf).1, (C17_edges w order wf).2.2.2.2⟩
+
+/-- non-vacuity, on a world with an overridden field: `C2(C1(C0))` re-declares `f0: C3` as `f0: List[C4]` -/
+example : [0, 1, 2, 3, 4].Nodup ∧ ∀ c ∈ [0, 1, 2, 3, 4], (wOverride.basesOf c).Nodup := by decide
 end KrroodVerif.CD
